@@ -233,20 +233,30 @@ def ctrl_blocks(s, l):
 
 
 def break_exits(s, l):
-    """`break`-like exits of a for loop: edges leaving the loop from a block other than the exhaustion test whose
-    target flows into the code after the loop (a `return` inside the loop does not: it bypasses the code after it)."""
+    """`break`-like exits of a for loop: edges leaving the loop from a block other than the exhaustion test that do not
+    set the return value before joining the code after the loop (a `return v` / `?` inside the loop writes the return
+    place on its private way out; a `break` does not)."""
     ctrl = ctrl_blocks(s, l)
     exits = loop_exits(s, l)
     normal = {t for a, t in exits if a in ctrl}
+    after = set(normal)
+    for n in normal:
+        after |= set(s.cfg.reachable_from(n, removed_nodes=l['blocks']))   # the code after the loop, not re-entering it
+    ret_blocks = set()
+    for st in s.stores:
+        tg = st.get('target')
+        if st.get('local') and tg and tg[0] == 'ref' and tg[1] == ('l', 0):
+            ret_blocks.add(st['blk'])
+    for c in s.calls:
+        d = c.get('dest')
+        if d and d[0] == 'ref' and d[1] == ('l', 0):
+            ret_blocks.add(c['blk'])
     out = []
     for a, t in exits:
         if a in ctrl:
             continue
-        if not normal:
-            out.append((a, t))
-            continue
-        reach = s.cfg.reachable_from(t)
-        if t in normal or any(n in reach for n in normal):
+        private = ({t} | set(s.cfg.reachable_from(t))) - after
+        if not (private & ret_blocks):
             out.append((a, t))
     return out
 
